@@ -5,7 +5,7 @@ Everything is stated about `Compio.Pool.run` / `step` — the functions the line
 (`Drivers/C07.lean`) executes against the real compio code — for ALL event sequences (`List Ev`) from ANY
 initial pool (`World.init kind numBufs bufLen`, both the io_uring buffer ring and the fallback pool,
 every pool size the builder accepts). The only guard is `Ev.safe`: the program does not call the raw
-`BufferPool::take(id)` / `reset(id)` with ids of its own choosing (finding C07a, see `Cex/C07.lean`);
+`BufferPool::take(id)` / `reset(id)` with ids of its own choosing (observation C07a, see `Cex/C07.lean`);
 managed reads, multishot streams, cancellations, early stream drops, handle drops in any order,
 `pop`, `release` with live handles and arbitrary (also ill-formed) event orders are all included.
 -/
@@ -300,6 +300,15 @@ example : ((World.init .ring 3 8).map fun w => ((run w demo).handles, (run w dem
 
 example : ((World.init .fb 2 8).map fun w =>
     (step (run w [.src .pipe 0, .pop, .pop]) (.read 0 0 0)).2) = some (.err true "busy") := by decide
+
+/-- completions that arrive after the future was dropped (`wcancel`: the kernel already filled a buffer,
+    the driver reaps the completion when the user's key is gone) are ordinary events of `run`; three of
+    them on a ring of two: every buffer is provided again, `tail` = 2 + 3 resets -/
+example : ((World.init .ring 2 8).map fun w =>
+    let w' := run w [.src .sock 0, .read 0 0 0, .wcancel 0 3, .read 0 0 0, .wcancel 0 9, .read 0 0 0, .wcancel 0 1]
+    (w'.pool.window, w'.pool.tail, w'.pool.head, w'.handles, w'.opIds)) = some ([1, 0], 5, 3, [], []) := by decide
+
+example : Ev.safe (.wcancel 0 1) = true ∧ Ev.safe (.wdstream 0 1) = true := by decide
 
 example : ringIdx (65535 % 65536) 0 4 = 3 ∧ ringIdx (65536 % 65536) 0 4 = 0 := by decide
 
